@@ -6,6 +6,7 @@ package lockup
 import (
 	"fmt"
 	"sort"
+	"strings"
 	"time"
 
 	"github.com/cosmos/cosmos-sdk/codec"
@@ -83,6 +84,10 @@ func (Engine) Generate(r *simcore.RNG, tier string, idx int) *simcore.Plan {
 			st.A = []int64{r.Range(1, 1000)}
 		case 8:
 			st.Op = "restart"
+			if r.Chance(0.4) {
+				// the chain is restarted from an export instead: only what the modules' genesis carries survives
+				st.A = []int64{r.Range(0, 5), 1}
+			}
 		}
 		if faults && r.Chance(0.2) && st.Op != "advance" && st.Op != "sweep" && st.Op != "restart" {
 			if r.Chance(0.35) {
@@ -230,9 +235,28 @@ func (Engine) Execute(run *simcore.Run) {
 			}
 			switch st.Op {
 			case "restart":
-				n.Restart()
+				if st.Arg(1) == 1 && (n.Height+1)%120 != 0 { // (the block committing the import must not be one that pays out matured locks)
+					if err := n.Reimport(); err != nil {
+						sig := "fails"
+						if strings.Contains(err.Error(), "twap record p0 and p1 last spot price must be zero") {
+							// x/twap's genesis validation refuses records its own end-blocker writes (known finding, an
+							// export/import matter recorded under C19): the node is restarted the ordinary way instead
+							sig = "twap-genesis-validation"
+						}
+						run.Fail("C06", "reimport", sig, "restarting the chain from its own export failed: %v", err)
+						if sig == "fails" || run.Stop() {
+							return
+						}
+						n.Restart()
+						run.Fault("restart")
+					} else {
+						run.Fault("restart-from-export")
+					}
+				} else {
+					n.Restart()
+					run.Fault("restart")
+				}
 				w.q = lockupkeeper.NewQuerier(*n.App.LockupKeeper)
-				run.Fault("restart")
 				if !begin(time.Duration(1+st.Arg(0)) * time.Second) {
 					return
 				}
